@@ -6,6 +6,7 @@ pub mod common;
 pub mod data_gen;
 pub mod ir_sexp;
 pub mod query_gen;
+pub mod recurse_subtype;
 pub mod run;
 pub mod schema_gen;
 pub mod tagged_regex;
